@@ -388,17 +388,19 @@ def _not_of(b, op):
 
 def rsu_arm(F, rep):
     import rules.c18 as c18
-    rl = c18.row_loop(F)
+    from rules.c08 import _R
+    rl = c18.row_loops(F)
     if len(rl) != 1:
         rep.unresolved("R3", "ROWLOOP", "row loop not found")
         return
-    b = rl[0]
-    tb = Terms(F, b, inline_depth=0)
-    calls = [(i, t) for i, t in b.calls() if t["callee"].endswith("AwardsData::get_fmv")]
-    if len(calls) != 1:
-        rep.unresolved("R3", "get_fmv-call", f"{len(calls)} calls to the awards lookup in the row loop")
+    root = rl[0][0]
+    rg = _R(F).region(root, depth=2)
+    calls = [it for it in rg.items if it["term"]["callee"].endswith("AwardsData::get_fmv")]
+    if len({(it["body"].id, it["bb"]) for it in calls}) != 1:
+        rep.unresolved("R3", "get_fmv-call", f"{len(calls)} calls to the awards lookup in the row loop (and its helpers)")
         return
-    i, t = calls[0]
+    it = calls[0]
+    b, i, t, tb = it["body"], it["bb"], it["term"], it["tb"]
     args = [tb.operand(a) for a in t["args"]]
     names = [[x[2] for x in subterms(a) if isinstance(x, tuple) and len(x) == 3 and x[0] == "field"] for a in args]
     ok = "date" in names[1] and "symbol" in names[2]
